@@ -335,8 +335,8 @@ Definition handle_positive_ack_procedures_s : SM unit :=
     if r_ack_limit r <=? cnt + 1 then declare_fault_s C_POS_ACK_LIMIT
     else
       setq (fun q => q <| q_ack_timer := Some (n, snd tm) |> <| q_ack_counter := cnt + 1 |>) ;;;
-      fsz <- gq q_file_size ;;
-      ck <- checksum_calculation (opt_z fsz) ;;
+      pr <- gq q_progress ;;
+      ck <- checksum_calculation pr ;;        (* F20 repair: the checksum of the bytes sent, as in the EOF it repeats *)
       prepare_eof_pdu ck
   end.
 
